@@ -98,6 +98,7 @@ std::string path() {
 
 struct Init { Init() { resetHooks().push_back([]() {
     reap(true);
+    { St &st = state(); if (!st.path.empty()) std::remove((st.path + ".real").c_str()); }
     Held &h = held();
     h.copies.clear(); h.dims.clear(); h.views.clear();
     for (auto &f : h.files) { try { f.close(); } catch (...) {} }
@@ -210,6 +211,15 @@ DRV_OP(cr_hold) {
         }
         throw ProtoError("cr_hold " + w);
     });
+}
+
+// cr_linkpath : from now on the path handed to the library is a SYMBOLIC LINK to the file (store.nix -> store.nix.real, which need
+// not exist yet): every open, flush, close, kill and reopen of the case goes through the link
+DRV_OP(cr_linkpath) {
+    std::string p = path(), real = p + ".real";
+    std::remove(p.c_str()); std::remove(real.c_str());
+    if (symlink(real.c_str(), p.c_str()) != 0) throw ProtoError("cr_linkpath: symlink");
+    return "ok";
 }
 
 DRV_OP(cr_close) {
